@@ -88,6 +88,7 @@ def analyze(prog: Program, declared: Optional[Dict[str, Tuple[int, int]]] = None
     byl = {r.label: r for r in rs}
     # ---------------- structure
     succ: Dict[int, List[int]] = {i: [] for i in range(n)}
+    pending_structural: List[Tuple[int, str]] = []     # only count when the instruction is reachable
     for i, ins in enumerate(prog.instrs):
         r = rof[i]
         if ins.op in ("b", "bz", "bnz"):
@@ -107,16 +108,28 @@ def analyze(prog: Program, declared: Optional[Dict[str, Tuple[int, int]]] = None
         if ins.op not in TERMINATORS:
             if i + 1 >= n:
                 if r.label is not None:
-                    res["structural"].append("line %d: subroutine %s runs off the end of the program" % (ins.line, r.label))
+                    pending_structural.append((i, "line %d: subroutine %s runs off the end of the program" % (ins.line, r.label)))
                 else:
                     succ[i].append(n)      # falling off the end of main: implicit return
             elif rof[i + 1] is not r:
-                res["structural"].append("line %d: falls through from routine %s into routine %s" % (ins.line, r.label, rof[i + 1].label))
+                pending_structural.append((i, "line %d: falls through from routine %s into routine %s" % (ins.line, r.label, rof[i + 1].label)))
             else:
                 succ[i].append(i + 1)
     for r in rs:
         if r.start >= r.end and r.label is None and n > 0 and r.end == 0:
             res["structural"].append("main routine is empty")
+    # only instructions reachable from their routine's entry are constrained: code after a return/err that nothing
+    # jumps to is dead, and a path that starts in dead code is not a path "reaching" an instruction
+    reach: Set[int] = set()
+    work = [r.start for r in rs if r.start < n]
+    while work:
+        i = work.pop()
+        if i in reach or i >= n:
+            continue
+        reach.add(i)
+        work.extend(succ[i])
+    res["unreachable_instructions"] = n - len(reach)
+    res["structural"] += [msg for (i, msg) in pending_structural if i in reach]
     # ---------------- phase 1: heights
     s = z3.Solver()
     s.set("timeout", timeout_ms)
@@ -146,6 +159,8 @@ def analyze(prog: Program, declared: Optional[Dict[str, Tuple[int, int]]] = None
             if r.label in declared:
                 add("declared:%s" % r.label, z3.And(A[r.label] == declared[r.label][0], R[r.label] == declared[r.label][1]))
     for i, ins in enumerate(prog.instrs):
+        if i not in reach:
+            continue
         r = rof[i]
         owned = A[r.label] if r.label is not None else 0
         if r.label is not None and hasproto[r.label]:
@@ -223,7 +238,7 @@ def analyze(prog: Program, declared: Optional[Dict[str, Tuple[int, int]]] = None
     if not want_types:
         return res
     # ---------------- phase 2: types (True = uint64, False = bytes)
-    res.update(_types(prog, rs, rof, succ, H, AR, hasproto, timeout_ms))
+    res.update(_types(prog, rs, rof, succ, H, AR, hasproto, timeout_ms, reach))
     return res
 
 
@@ -274,7 +289,7 @@ def _field_type(op: str, ins) -> Optional[str]:
     return None
 
 
-def _types(prog, rs, rof, succ, H, AR, hasproto, timeout_ms) -> Dict[str, Any]:
+def _types(prog, rs, rof, succ, H, AR, hasproto, timeout_ms, reach) -> Dict[str, Any]:
     import time
     out: Dict[str, Any] = {"types": None, "type_core": []}
     n = len(prog.instrs)
@@ -327,6 +342,8 @@ def _types(prog, rs, rof, succ, H, AR, hasproto, timeout_ms) -> Dict[str, Any]:
             for k in slots:
                 add("init-slot%d" % k, sl(r.start, k) == True)  # noqa: E712
     for i, ins in enumerate(prog.instrs):
+        if i not in reach:
+            continue
         op, a = ins.op, ins.args
         r = rof[i]
         hi = H[i]
